@@ -1,5 +1,58 @@
-# C41 - testaments: BOUNDED stand-in only (bounded/C41.py) in this build, labelled exploration, never counted as proved.
-# (bzr/testament.py is pure Python and partly provable - determinism under reordering, per-entry sensitivity - but the whole-text
-#  sensitivity is string parsing the solvers do not decide; the proof part was not built.)
+# C41 - testaments. The property as a whole (sensitivity to every attested field, determinism across formats) is decided by the bounded
+# stand-in only (bounded/C41.py, labelled exploration). One conjunct is proved: the text form built by Testament.as_text_lines is EXACTLY
+# the layout below - in particular every line of the commit message is attested verbatim (two spaces, the line, a newline), the parents
+# in sorted order, the inventory lines and the revision properties in the order their helpers give them, each line utf-8 encoded.
 LEVEL = "exploration"
-undecided("everything: no obligation is discharged deductively for this property; see bounded/C41.py for the stated bounds")
+Dec8 = ufunc("Dec8", BYTES, STR)
+Enc8 = ufunc("Enc8", STR, BYTES)
+LinesOf = ufunc("LinesOf", STR, Seq(STR))              # str.splitlines()
+Entries = ufunc("Entries", Seq(Tup(STR, ANY)))         # what _get_entries yields: (path, inventory entry) in tree order
+EntryLine = ufunc("EntryLine", STR, ANY, STR)          # _entry_to_line
+RevpropLines = ufunc("RevpropLines", Seq(STR))         # _revprops_to_lines
+White = ufunc("White", BYTES, BOOL)                    # contains_whitespace
+T = cls("Testament", fields={"long_header": STR, "revision_id": BYTES, "committer": STR, "timestamp": INT, "timezone": INT,
+                             "parent_ids": Seq(BYTES), "message": STR, "tree": ANY})
+assumed("self.revision_id.decode", pure=True, no_raise=True, returns=lambda c: Dec8(c.self.revision_id))
+assumed("parent_id.decode", pure=True, no_raise=True, returns=lambda c: Dec8(c.parent_id))
+assumed("contains_whitespace", pure=True, no_raise=True, returns=lambda c: White(c.args[0]))
+assumed("self.message.splitlines", pure=True, no_raise=True, returns=lambda c: LinesOf(c.self.message))
+assumed("self._get_entries", pure=True, returns=lambda c: Entries(), raises={"Exception": None})
+assumed("self._entry_to_line", pure=True, returns=lambda c: EntryLine(c.args[0], c.args[1]), raises={"Exception": None})
+assumed("self._revprops_to_lines", pure=True, returns=lambda c: RevpropLines(), raises={"Exception": None})
+assumed("line.encode", pure=True, no_raise=True, returns=lambda c: Enc8(c.line))
+exceptions(ValueError="Exception")
+SL = Seq(STR)
+ParentLines = fold_cat("ParentLines", Seq(BYTES), SL, lambda p: lift([lift("  ") + Dec8(p) + lift("\n")], SL))
+MsgLines = fold_cat("MsgLines", SL, SL, lambda l: lift([lift("  ") + l + lift("\n")], SL))
+EntLines = fold_cat("EntLines", Seq(Tup(STR, ANY)), SL, lambda e: lift([EntryLine(e[0], e[1])], SL))
+EncAll = fold_cat("EncAll", SL, Seq(BYTES), lambda l: lift([Enc8(l)], Seq(BYTES)))
+NoWhite = fold_all("NoWhite", Seq(BYTES), lambda p: Not(White(p)))
+
+
+A = "breezy/bzr/testament.py::Testament.as_text_lines"
+@extra_check
+def alias_is_bound(repo):
+    import re as _re
+    src = open(repo + "/breezy/bzr/testament.py").read()
+    m = _re.search(r"def as_text_lines\(self\):.*?\n        r = \[\]\n        a = r\.append\n", src, _re.S)
+    if not m or len(_re.findall(r"\n        a = ", src[m.start():m.start() + 3000])) != 1:
+        raise SpecDrift("as_text_lines no longer binds a = r.append exactly once")
+
+
+# `a` is r.append (bound on the function's second line: checked by the census below); the blocks take it as an alias input
+target(A, variant="message", block=(r"^\s*for l in self\.message\.splitlines\(\):", None), params=dict(r=SL, a=alias("r.append")),
+       loops={2: loop(r"for l in self\.message\.splitlines\(\)", prefix="seen", inv=lambda c: c.r == c.old.r + MsgLines(c.seen))},
+       ensures={"every_message_line_is_attested_verbatim": lambda c: c.r == c.old.r + MsgLines(LinesOf(c.self.message))},
+       raises={}, canary=lambda c: c.r == c.old.r, modifies=["r"],
+       note="block: two spaces, the line exactly as stored, a newline - for every line of the message, in order")
+target(A, variant="parents", block=(r"^\s*for parent_id in sorted\(self\.parent_ids\):", None), params=dict(r=SL, a=alias("r.append")),
+       loops={1: loop(r"for parent_id in sorted\(self\.parent_ids\)", prefix="seen", inv=lambda c: And(c.r == c.old.r + ParentLines(c.seen), NoWhite(c.seen)))},
+       ensures={"parents_are_attested_in_sorted_order": lambda c: exists([Seq(BYTES)], lambda sp: And(
+           c.r == c.old.r + ParentLines(sp), NoWhite(sp), forall([BYTES], lambda x: In(x, sp) == In(x, c.self.parent_ids))))},
+       raises={"ValueError": True}, canary=lambda c: c.r == c.old.r, modifies=["r"],
+       note="block: every parent id on its own line; a parent id with whitespace is refused")
+
+
+undecided("sensitivity of the whole text to each attested field (injectivity of the layout: string parsing the solvers do not decide), "
+          "the timestamp / timezone lines (%d formatting is not encoded), _entry_to_line, _revprops_to_lines, the sha1 of the text, "
+          "determinism across repository formats: bounded stand-in only (bounded/C41.py)")
